@@ -17,7 +17,7 @@ CLAIMED.update({
          "As C01. The quick tier leaves the AllocFrame step lemma to C01's check (same harness body); thorough runs it here too.", "7 C03"),
  "C09": ("Lock-discipline monitor on the real AllocFrame/FreeFrame over the C01 state space: every access to the allocator's mutable shared state (bitmap words, per-pool freeCount, reservedPages, totalPages) happens while alloc.mutex is held, Acquire happens on a free lock (a second Acquire is reported as blocking forever), and the lock is free again on every return path. The same command then regenerates the C08 lock transition system from kernel/sync and discharges its quick queries (the mutex admits one holder), reported under C09. Together with the C01/C03 step lemmas this lifts sequential correctness to concurrent histories by reduction (argument in DESIGN.md, not machine-checked).",
          "Sequential symbolic execution with a byte-range lock monitor; concurrency itself is covered by the C08 transition-system check plus the reduction argument; x86-TSO assumptions as in C08. Violations found by the monitor have no native oracle and are reported on the symbolic evidence alone.", "7 C09"),
- "C10": ("Bounded symbolic model checking of the real multiboot decoder over a raw memory region with symbolic bytes and a symbolic accessible limit (any read past the block's own end is a violation): findTagByType (symbolic tag order/sizes), VisitMemRegions (entry size 24/32/40, every 32-bit type, early stop), GetFramebufferInfo/RGBColorInfo, VisitElfSections (symbolic string table), GetBootCmdLine (real strings.Fields/Split from the standard library's SSA against a reference splitter).",
+ "C10": ("Bounded symbolic model checking of the real multiboot decoder over a raw memory region with symbolic bytes and a symbolic accessible limit (any read past the block's own end is a violation): findTagByType (symbolic tag order/sizes, and a tag of about 2 GiB in a sparse region), VisitMemRegions (entry size 24/32/40, every 32-bit type, early stop), GetFramebufferInfo/RGBColorInfo, VisitElfSections (symbolic string table), GetBootCmdLine (real strings.Fields/Split from the standard library's SSA against a reference splitter).",
          "Well-formed blocks only (assumed layout); <=3 tags, <=3 sections, names <=3 bytes, command line <=5 ASCII bytes; block at a concrete 8-aligned address (A-ADDR).", "7 C10"),
 })
 
